@@ -31,7 +31,7 @@ ASSUMPTIONS = [
 
 @st.composite
 def cases(draw):
-    b = draw(history_program(max_steps=16))
+    b = draw(history_program(max_steps=16, flagged_views=draw(st.integers(0, 2)) == 0))
     return {"prog": b.prog}
 
 
@@ -65,6 +65,10 @@ def classify(prog, ref):
         if s["kind"] == "out" and s["p"].get("where") is not None:
             labels.append("where_mask")
         labels.append("kind_" + s["kind"])
+        if s["kind"] == "out" and s["p"].get("constant") is not None:
+            labels.append("out_with_constant_kw")
+        if stmts[created[t]].get("constant") is not None:
+            labels.append("mutate_flagged_view")
     if nmut >= 2:
         labels.append("mutations>=2")
     if nmut >= 4:
@@ -86,9 +90,9 @@ def skeleton(prog):
 
 def check_case(case, rec=None):
     reset_mygrad()
-    run, ref, mm = history.run_lockstep(case["prog"])
+    run, ref, mm = history.run_lockstep(case["prog"], flag_views="memory")
     if rec is not None:
-        full = history.ir.RefRun(case["prog"]).run()
+        full = history.ir.RefRun(case["prog"], flag_views="memory").run()
         nontrivial, labels = classify(case["prog"], full)
         rec.note(skeleton(case["prog"]), nontrivial, labels, sample=case["prog"]["stmts"])
         rec.extra["steps"] = rec.extra.get("steps", 0) + len(case["prog"]["stmts"])
